@@ -3,6 +3,7 @@ import json
 import re
 
 import vlib
+from checks import datelib
 
 META = {
     "property_id": "C23",
@@ -435,7 +436,7 @@ def parse_inspect(s):
     return "ok ?" + s[:60]
 
 
-def program_answer(a, unwrap=False):
+def program_answer(a, unwrap=False, reduce_op=False):
     if a["outcome"] == "value":
         lines = a["stdout"].split("\n")
         first = lines[0]
@@ -448,6 +449,8 @@ def program_answer(a, unwrap=False):
         return {"Std::Iterable::NotFoundError": "err NotFound", "Std::OutOfRangeError": "err OutOfRange"}.get(cls, "err " + cls), None
     if a["outcome"] == "rejected":
         return "rejected " + "; ".join(d["msg"][:80] for d in a["diags"][:2]), None
+    if a["outcome"] == "panic" and reduce_op and "got: undefined" in (a.get("panic") or ""):
+        return "ok undefined", None     # the program tripped over the `undefined` that reduce handed back
     return a["outcome"] + " " + (a.get("panic") or "")[:120], None
 
 
@@ -493,7 +496,7 @@ def run(ctx):
     if ctx.replay:
         rep = json.load(open(ctx.replay))["input"]
         if "line" in rep:
-            vlib.correspond(ctx, [rep["line"]], oracle=oracle, label="iter domain")
+            datelib.correspond(ctx, [rep["line"]], oracle=oracle, label="iter domain")
         else:
             run_programs(ctx, [rep["program_line"]] if "program_line" in rep else [], [rep["for_spec"]] if "for_spec" in rep else [])
         return
@@ -506,7 +509,7 @@ def run(ctx):
         ctx.stat("kind:" + ff[2].split(":")[0])
         ctx.stat("op:" + ff[3])
         ctx.stat("mode:" + ff[1])
-    vlib.correspond(ctx, lines, oracle=oracle, minimise=minimise, label="iter domain")
+    datelib.correspond(ctx, lines, oracle=oracle, minimise=minimise, label="iter domain")
     # Elk source: the same operations through parser, checker, compiler and VM dispatch
     plines = [l for l in (gen_line(ctx.rng, orders) for _ in range(ctx.n(1500, 12000))) if l.split("\t")[2].startswith(("list:", "tuple:"))]
     plines = plines[:ctx.n(250, 3000)]
@@ -539,7 +542,8 @@ def run_programs(ctx, plines, specs):
     ok = True
     reported = 0
     for (kind, what), req, a, mline, mans in zip(meta, reqs, answers, model_lines, model):
-        got, recv_after = program_answer(a, kind == "op" and what.split("\t")[3].startswith("try_"))
+        opname = what.split("\t")[3] if kind == "op" else ""
+        got, recv_after = program_answer(a, opname.startswith("try_"), opname == "reduce")
         want_model = mans.split(" | ")[0]
         ctx.case(("prog", kind, what), sample={"program": req["src"], "impl": got, "model": want_model})
         ctx.stat("program:" + kind)
@@ -551,11 +555,16 @@ def run_programs(ctx, plines, specs):
                 pf = f"the receiver reads {recv_after!r} after {what.split(chr(9))[3]}, it was {show_list(l)!r}"
         if got == want_model and pf is None:
             continue
+        inp = {"program_line": what, "program": req["src"]} if kind == "op" else {"for_spec": what, "program": req["src"]}
+        if pf is not None and got == want_model:
+            v = {"kind": "property-fails", "input": inp, "detail": f"{pf}; program answers {got!r}, model {want_model!r}"}
+            if ctx.match_finding(v) is not None:
+                ctx.violation(v["kind"], v["input"], v["detail"])
+                continue
         ok = False
         if reported >= 5:
             continue
         reported += 1
-        inp = {"program_line": what, "program": req["src"]} if kind == "op" else {"for_spec": what, "program": req["src"]}
         if pf is not None:
             ctx.violation("property-fails", inp, f"{pf}; program answers {got!r}, model {want_model!r}")
         else:
